@@ -43,6 +43,9 @@ type loopstack []loop
 
 // Push a loop
 func (ls *loopstack) Push(l loop) {
+	if len(*ls) >= py.CO_MAXBLOCKS {
+		panic(py.ExceptionNewf(py.SyntaxError, "too many statically nested blocks"))
+	}
 	*ls = append(*ls, l)
 }
 
@@ -783,13 +786,13 @@ Code generated for "try: <body> finally: <finalbody>" is as follows:
 func (c *compiler) tryFinally(node *ast.Try) {
 	end := new(Label)
 	c.Jump(vm.SETUP_FINALLY, end)
+	c.loops.Push(loop{Type: finallyTryLoop})
 	if len(node.Handlers) > 0 {
 		c.tryExcept(node)
 	} else {
-		c.loops.Push(loop{Type: finallyTryLoop})
 		c.Stmts(node.Body)
-		c.loops.Pop()
 	}
+	c.loops.Pop()
 	c.Op(vm.POP_BLOCK)
 	c.LoadConst(py.None)
 	c.Label(end)
@@ -875,9 +878,11 @@ func (c *compiler) tryExcept(node *ast.Try) {
 
 			/* second try: */
 			c.Jump(vm.SETUP_FINALLY, cleanup_end)
+			c.loops.Push(loop{Type: finallyTryLoop})
 
 			/* second # body */
 			c.Stmts(handler.Body)
+			c.loops.Pop()
 			c.Op(vm.POP_BLOCK)
 			c.Op(vm.POP_EXCEPT)
 
